@@ -41,6 +41,22 @@ impl<T, E> Clone for Sender<T, E> {
 }
 
 impl<T, E> Sender<T, E> {
+    /// Whether a stream registering with `frame` fits the messaging pattern of this topic
+    pub fn accepts(&self, frame: &selium_protocol::Frame) -> bool {
+        use selium_protocol::Frame;
+
+        match self {
+            Self::Pubsub(_) => matches!(
+                frame,
+                Frame::RegisterPublisher(_) | Frame::RegisterSubscriber(_)
+            ),
+            Self::ReqRep(_) => matches!(
+                frame,
+                Frame::RegisterReplier(_) | Frame::RegisterRequestor(_)
+            ),
+        }
+    }
+
     pub async fn send(&mut self, sock: Socket<T, E>) -> Result<()> {
         match self {
             Self::Pubsub(ref mut s) => s.send(sock.unwrap_pubsub()).await?,
